@@ -74,6 +74,24 @@ func main() {
 		os.Exit(cmdCheck(os.Args[2:]))
 	case "func":
 		os.Exit(cmdFunc(os.Args[2:]))
+	case "list":
+		// govc list [-exp] <substring>: function ids as used in contracts
+		exp := len(os.Args) > 2 && os.Args[2] == "-exp"
+		P, _, err := loadAll("/repo", exp)
+		if err != nil {
+			fmt.Println(err)
+			os.Exit(2)
+		}
+		var ids []string
+		for id, f := range P.Funcs {
+			if strings.Contains(id, os.Args[len(os.Args)-1]) && f.Blocks != nil {
+				ids = append(ids, id)
+			}
+		}
+		sort.Strings(ids)
+		for _, id := range ids {
+			fmt.Println(id)
+		}
 	default:
 		fmt.Fprintln(os.Stderr, "unknown command")
 		os.Exit(2)
